@@ -190,8 +190,20 @@ def run(ctx: Any, prog: Program) -> None:
             return True if any(v is True for v in vals) else (False if all(v is False for v in vals) else None)
         if isinstance(t, ast.Name) and t.id == 'exc_type':
             return True
+        if isinstance(t, ast.Name) and t.id in exc_alias:
+            return ev3(exc_alias[t.id])
         return None
-    exc_tests = [n for n in g.nodes if n.kind == 'test' and 'exc_type' in U(n.stmt)]
+    # a local assigned once from a test of exc_type (`commit = exc_type is None`) stands for that test
+    exc_alias: Dict[str, ast.AST] = {}
+    stores_: Dict[str, List[ast.AST]] = {}
+    for n_ in walk_no_nested(ex):
+        if isinstance(n_, ast.Name) and isinstance(n_.ctx, ast.Store):
+            stores_.setdefault(n_.id, []).append(n_)
+    for n_ in walk_no_nested(ex):
+        if isinstance(n_, ast.Assign) and len(n_.targets) == 1 and isinstance(n_.targets[0], ast.Name) and len(stores_.get(n_.targets[0].id, [])) == 1 \
+                and any(isinstance(x, ast.Name) and x.id == 'exc_type' for x in ast.walk(n_.value)):
+            exc_alias[n_.targets[0].id] = n_.value
+    exc_tests = [n for n in g.nodes if n.kind == 'test' and ('exc_type' in U(n.stmt) or any(isinstance(x, ast.Name) and x.id in exc_alias for x in ast.walk(n.stmt)))]
     if not exc_tests:
         raise AnalysisError('AtomicWriter.__exit__: no test of exc_type found')
     bad_edges = set()
@@ -224,7 +236,19 @@ def run(ctx: Any, prog: Program) -> None:
     ctx.rule('C12.W6', 'after a successful replace() the temp name is not touched again (no unlink on the committed path)', floor=1)
     for r in replace_nodes:
         exc_out = {(r.id, m, lab) for m, lab in g.succ[r.id] if lab == 'exc'}
-        p6 = g.find_path_flags(r, {n.id for n in unlink_nodes}, removed_edges=exc_out)
+        # what the tests guarding the replace statement say about plain flag names holds when it runs (`if commit: replace()`)
+        known: Dict[str, bool] = {}
+        ch6: ast.AST = r.stmt
+        par6 = core.parents.get(ch6)
+        while par6 is not None and par6 is not ex:
+            if isinstance(par6, ast.If):
+                t6, pol = par6.test, ch6 in par6.body
+                if isinstance(t6, ast.UnaryOp) and isinstance(t6.op, ast.Not):
+                    t6, pol = t6.operand, not pol
+                if isinstance(t6, ast.Name):
+                    known[t6.id] = pol
+            ch6, par6 = par6, core.parents.get(par6)
+        p6 = g.find_path_flags(r, {n.id for n in unlink_nodes}, removed_edges=exc_out, start_vals=known)
         ctx.check('C12.W6', p6 is None, core, unlink_nodes[0].stmt if unlink_nodes and p6 else r.stmt, 'the temp name is unlinked on the path on which replace() succeeded' + (': ' + g.describe(p6) if p6 else '') +
                   ' - by then the name may belong to a second writer (its exclusive create succeeds once the rename freed the name), whose half-written file is deleted',
                   func='AtomicWriter.__exit__', text='no unlink after the commit')
@@ -394,6 +418,8 @@ def run(ctx: Any, prog: Program) -> None:
 
 
 MUTANTS = [
+    {'id': 'exit_commit_decided_up_front', 'file': '__init__.py', 'find': '        committed = False\n        try:', 'replace': '        commit = exc_type is None\n        try:', 'extra': [{'file': '__init__.py', 'find': '            if exc_type is None:\n                # No exception, commit changes\n                self._temp_name.replace(self.filename)\n                committed = True\n', 'replace': '            if commit:\n                self._temp_name.replace(self.filename)\n'}, {'file': '__init__.py', 'find': '            if not committed:', 'replace': '            if not commit:'}], 'expect': 'C12.W3'},
+    {'id': 'ok_exit_body_ok_alias', 'file': '__init__.py', 'find': '        committed = False\n        try:', 'replace': '        committed = False\n        body_ok = exc_type is None\n        try:', 'extra': [{'file': '__init__.py', 'find': '            if exc_type is None:\n                # No exception, commit changes\n', 'replace': '            if body_ok:\n'}], 'expect': None},
     {'id': 'unlink_after_commit', 'file': '__init__.py', 'find': "            if not committed:\n                # An exception occurred in the body, or while closing/renaming. Clean up.\n                try:\n                    self._temp_name.unlink()\n                except OSError:\n                    pass\n", 'replace': "            try:\n                self._temp_name.unlink(missing_ok=True)\n            except OSError:\n                pass\n", 'expect': 'C12.W6'},
     {'id': 'close_error_swallowed', 'file': '__init__.py', 'find': "                temp.__exit__(exc_type, exc_value, tback)\n", 'replace': "                try:\n                    temp.__exit__(exc_type, exc_value, tback)\n                except OSError:\n                    temp.close()\n", 'expect': 'C12.W2'},
     {'id': 'empty_temp_file_taken_over', 'file': '__init__.py', 'find': "                if self.is_bytes:  # type checkers can't narrow self from this!\n                    self.temp = self._temp_name.open('xb')  # type: ignore", 'replace': "                mode = 'w' if self._temp_name.exists() and self._temp_name.stat().st_size == 0 else 'x'\n                if self.is_bytes:  # type checkers can't narrow self from this!\n                    self.temp = self._temp_name.open(mode + 'b')  # type: ignore", 'expect': 'C12.W4'},
